@@ -525,6 +525,7 @@ Record outcome_facts := mkFacts {
   f_journal_srcs : list sha;      (* source_commits of the newest CherryPickStart before the command *)
   f_onto : option sha;            (* what the wrapper resolves from --onto / upstream *)
   f_upstream : option sha;        (* first argument of the pre-rebase hook, resolved *)
+  f_co_head : option sha;         (* HEAD after the checkout that starts the rebase (second argument of post-checkout) *)
   f_branch : option sha;          (* explicit <branch> argument, resolved *)
   f_uptodate : bool;              (* git found nothing to do and ran no hook *)
   f_picks : list (sha * sha);     (* lines of post-rewrite rebase, [] = the hook did not fire *)
@@ -805,10 +806,10 @@ Definition fires_rebase_start (pull : bool) (f : outcome_facts) : list firing :=
     let r := if pull then ra_pull_action else ra_none in
     let pre := with_rebase_args (with_ra (env0 f) r) (f_journal_active f) (f_branch f) (f_upstream f) in
     let co := with_pull (with_ra (with_refs (with_seq (env0 f) true None false None)
-                                            (f_upstream f) None (f_head f) false) r)
+                                            (f_co_head f) None (f_head f) false) r)
                         (match f_picks f with [] => true | _ => false end) false false (f_origs f, f_news f) in
     [mkFiring HN_pre_rebase ANone pre;
-     mkFiring HN_post_checkout (APostCheckout (zero_or (f_head f)) (zero_or (f_upstream f))) co] ++ rebase_tail pull f.
+     mkFiring HN_post_checkout (APostCheckout (zero_or (f_head f)) (zero_or (f_co_head f))) co] ++ rebase_tail pull f.
 
 Definition fires_cherry_pick (f : outcome_facts) : list firing :=
   flat_map (fun m =>
@@ -817,8 +818,9 @@ Definition fires_cherry_pick (f : outcome_facts) : list firing :=
     let after := with_refs (with_seq (env0 f) false (if m_cph m then Some (m_src m) else None) (m_seq m) (Some (m_src m)))
                            (Some (m_new m)) (Some (m_parent m)) (Some (m_parent m)) false in
     (if m_cph m then [] else [mkFiring HN_pre_commit ANone during]) ++
-    [mkFiring HN_prepare_commit_msg ANone during;
-     mkFiring HN_reference_transaction (ARefTx Committed None (Some (m_parent m, m_new m)) true) during;
+    [mkFiring HN_prepare_commit_msg ANone during] ++
+    (if m_cph m then [] else [mkFiring HN_commit_msg ANone during]) ++     (* a resolved pick goes through git commit *)
+    [mkFiring HN_reference_transaction (ARefTx Committed None (Some (m_parent m, m_new m)) true) during;
      mkFiring HN_post_commit ANone after]) (f_made f).
 
 Definition fires_reset (f : outcome_facts) : list firing :=
@@ -853,7 +855,8 @@ Definition fires_stash (sub : stash_sub) (f : outcome_facts) : list firing :=
   end.
 
 Definition fires_merge_squash (f : outcome_facts) : list firing :=
-  if f_exit_ok f && f_merged f then
+  (* post-merge fires when something was squashed, also when the squash stops with conflicts (exit 1) *)
+  if f_merged f then
     [mkFiring HN_post_merge (APostMerge true) (with_squash (env0 f) (f_squash_src f))]
   else [].
 
@@ -962,7 +965,7 @@ Definition wf_firing (c : command_class) (f : outcome_facts) : bool :=
        && negb (opt_eqb (f_parent_after f) (f_head f))
        && (is_some (f_parent_after f) || f_prev_root f))
   | CRebase | CRebaseI =>
-      negb (f_in_progress f) && is_some (f_head f) && nz (f_upstream f) && is_some (f_upstream f)
+      negb (f_in_progress f) && is_some (f_head f) && nz (f_co_head f) && is_some (f_co_head f)
       && forallb inert_noise (f_noise f)
       && (negb (f_uptodate f) || (negb (f_in_progress_after f) && match f_picks f with [] => true | _ => false end))
       && (match f_picks f with [] => true | _ => f_exit_ok f end)
@@ -990,10 +993,9 @@ Definition wf_firing (c : command_class) (f : outcome_facts) : bool :=
   | CResetSoft | CResetMixed =>
       negb (f_exit_ok f) || (is_some (f_head f) && is_some (f_head_after f) && opt_eqb (f_target f) (f_head_after f))
   | CResetHard =>
-      negb (f_exit_ok f) || (is_some (f_head f) && is_some (f_head_after f) && opt_eqb (f_target f) (f_head_after f)
-                             && negb (f_dirty_after f))
+      negb (f_exit_ok f) || (is_some (f_head f) && is_some (f_head_after f) && opt_eqb (f_target f) (f_head_after f))
   | CResetPath =>
-      negb (f_exit_ok f) || (is_some (f_head f) && opt_eqb (f_head_after f) (f_head f) && is_some (f_target f))
+      negb (f_exit_ok f) || (is_some (f_head f) && opt_eqb (f_head_after f) (f_head f))
   | CStashPush =>
       nz (f_stash_new f) && nz (f_stash_top f) &&
       (negb (is_some (f_stash_new f)) || Nat.eqb (f_stash_after f) (S (f_stash_before f))) &&
@@ -1002,17 +1004,17 @@ Definition wf_firing (c : command_class) (f : outcome_facts) : bool :=
       nz (f_stash_top f) &&
       (negb (f_exit_ok f) || (is_some (f_stash_top f) && Nat.eqb (f_stash_before f) (S (f_stash_after f))))
   | CStashApply => nz (f_stash_top f) && (negb (f_exit_ok f) || is_some (f_stash_top f))
-  | CMergeSquash => nz (f_squash_src f) && (negb (f_exit_ok f) || (is_some (f_head f) && is_some (f_squash_src f)))
+  | CMergeSquash => nz (f_squash_src f) && is_some (f_head f) && is_some (f_squash_src f)
   | CCheckoutBranch | CSwitchBranch => negb (f_exit_ok f) || (is_some (f_head f) && is_some (f_head_after f))
   | CCheckoutPath => negb (f_exit_ok f) || (is_some (f_head f) && opt_eqb (f_head_after f) (f_head f))
   | CPullFF => negb (f_exit_ok f) || (is_some (f_head f) && is_some (f_head_after f))
   | CPullRebase =>
-      negb (f_in_progress f) && negb (f_in_progress_after f) && forallb inert_noise (f_noise f) && nz (f_upstream f)
+      negb (f_in_progress f) && negb (f_in_progress_after f) && forallb inert_noise (f_noise f) && nz (f_co_head f)
       && (match f_picks f with [] => (match f_noise f with [] => true | _ => false end) | _ => true end)
       && (negb (f_exit_ok f) ||
-          (is_some (f_head f) && is_some (f_head_after f) && is_some (f_upstream f)
+          (is_some (f_head f) && is_some (f_head_after f) && is_some (f_co_head f)
            && (negb (f_uptodate f) || (opt_eqb (f_head_after f) (f_head f) && match f_picks f with [] => true | _ => false end))
-           && (match f_picks f with [] => opt_eqb (f_head_after f) (f_upstream f) || f_uptodate f | _ => true end)))
+           && (match f_picks f with [] => opt_eqb (f_head_after f) (f_co_head f) || f_uptodate f | _ => true end)))
   end.
 
 (* the RebaseComplete event each side would emit at the end of a plain rebase *)
@@ -1062,7 +1064,7 @@ Definition K4_cherry_pick (f : outcome_facts) : bool :=
   end.
 
 Definition rename_at_start_live (f : outcome_facts) : bool :=
-  f_wl_pending f && negb (f_uptodate f) && negb (opt_eqb (f_head f) (f_upstream f)).
+  f_wl_pending f && negb (f_uptodate f) && negb (opt_eqb (f_head f) (f_co_head f)).
 
 (* Known_C13 c f = true: the two translations produce different effects on these facts *)
 Definition Known_C13 (c : command_class) (f : outcome_facts) : bool :=
@@ -1078,19 +1080,19 @@ Definition Known_C13 (c : command_class) (f : outcome_facts) : bool :=
                       (negb (opt_eqb (f_head f) (f_head_after f)) && (negb (f_backward f) || negb (f_dirty_after f))))
       || (negb (f_exit_ok f) && f_uncheckpointed f)
   | CResetHard =>
-      f_uncheckpointed f || (f_exit_ok f && (opt_eqb (f_head f) (f_head_after f) || negb (f_backward f)))
-  | CResetPath => f_uncheckpointed f || (f_exit_ok f && f_backward f)
+      f_uncheckpointed f || (f_exit_ok f && (opt_eqb (f_head f) (f_head_after f) || negb (f_backward f) || f_dirty_after f))
+  | CResetPath => f_uncheckpointed f || (f_exit_ok f && f_backward f && is_some (f_target f))
   | CStashPush => f_uncheckpointed f || (f_exit_ok f && negb (is_some (f_stash_new f)) && is_some (f_stash_top f))   (* K8, K11 *)
   | CStashPop => f_exit_ok f && (Nat.leb 2 (f_stash_before f) || negb (f_dirty_after f))
   | CStashApply => f_exit_ok f
   | CStashDrop => f_uncheckpointed f || (f_exit_ok f && negb (Nat.leb 2 (f_stash_before f)) && f_dirty_after f)
-  | CMergeSquash => f_exit_ok f && negb (f_merged f)                                               (* K9 *)
+  | CMergeSquash => negb (Bool.eqb (f_exit_ok f) (f_merged f))                                     (* K9 *)
   | CCheckoutBranch | CSwitchBranch => false
   | CCheckoutPath => f_exit_ok f && f_path_pending f                                               (* K7 *)
   | CPullFF => false
   | CPullRebase =>
       f_exit_ok f && (f_wl_pending f && negb (opt_eqb (f_head f) (f_head_after f))
-                      || (match f_picks f with [] => negb (f_uptodate f) && negb (opt_eqb (f_head_after f) (f_upstream f)) | _ => false end))
+                      || (match f_picks f with [] => negb (f_uptodate f) && negb (opt_eqb (f_head_after f) (f_co_head f)) | _ => false end))
   end.
 
 (* the hook mask outlives the command (K1): a rebase that git ends without post-rewrite rebase *)
